@@ -67,7 +67,7 @@ func (ex *Exec) nativeCall(key string, callee *ssa.Function, c *ssa.CallCommon, 
 		vc.assume("(>= " + n + " " + clk + ")")
 		ex.set(st, "CLK", "Int", n)
 		return Val{T: "(- " + n + " " + ex.timeNanos(args[0].T) + ")"}, true
-	case "math/rand.Int":
+	case "rand.Int":
 		note()
 		r := vc.fresh(ex.pfx+"rand", "Int")
 		vc.assume("(and (>= " + r + " 0) (<= " + r + " 9223372036854775807))")
